@@ -243,7 +243,7 @@ Fixpoint nest (n : nat) (p : prog) : prog :=
 (* the shapes of the three macros the machine encodes, as normalised token strings
    (tools/genx_exn.py emits the shapes found in include/Cello.h into Generated.v) *)
 Require Import String.
-Open Scope string_scope.
+Local Open Scope string_scope.
 Definition expected_macro_try : string :=
   "{ jmp_buf __env ; exception_try ( & __env ) ; if ( ! setjmp ( __env ) )".
 Definition expected_macro_catch_in : string :=
